@@ -95,9 +95,32 @@ class HarnessError(Exception):
     """Something the harness itself got wrong (exit 2, never a violation)."""
 
 
-def _fail_exit(code):
-    raise HarnessError('utils.sys_exit(%r) called from the code under test'
-                       % (code,))
+class ProcessExit(BaseException):
+    """utils.sys_exit() (os._exit) called by the code under test, e.g. by
+    utils.exit_on_unhandled around a watch callback: the service process is
+    gone. Its ZooKeeper session is not closed; the supervisor restarts the
+    service, which re-attaches to the same session (--zkid) with an empty
+    presence map and replays its request directory."""
+
+
+def _fail_exit(*args, **_kwargs):
+    raise ProcessExit(*args)
+
+
+def _call_watch_func(func, data, stat, event):
+    """kazoo's DataWatch passes the event only to callbacks that take it."""
+    import inspect
+    try:
+        params = list(inspect.signature(func).parameters.values())
+    except (TypeError, ValueError):
+        return func(data, stat, event)
+    if any(par.kind == par.VAR_POSITIONAL for par in params):
+        return func(data, stat, event)
+    npos = len([par for par in params if par.kind in (
+        par.POSITIONAL_ONLY, par.POSITIONAL_OR_KEYWORD)])
+    if npos >= 3:
+        return func(data, stat, event)
+    return func(data, stat)
 
 
 def instance_name(inst):
@@ -171,7 +194,16 @@ class _AtomicDataWatch(object):
             data, stat = None, None
         else:
             data, stat = node.data, tree.stat(node)
-        result = self.func(data, stat, event)
+        host = getattr(self.client, 'host', None)
+        try:
+            result = _call_watch_func(self.func, data, stat, event)
+        except ProcessExit:
+            cur = host.current if host is not None else None
+            if host is None or (cur is not None and
+                                greenlet.getcurrent() is cur.glet):
+                raise           # unwinds the callback greenlet, see _start
+            host.world.process_exit(host)
+            return
         if result is False:
             self.stopped = True
             try:
@@ -221,14 +253,11 @@ class SimClient(fakezk.Client):
             pass        # the error reply is lost as well
         raise kazoo.exceptions.ConnectionLoss()
 
-    def create(self, path, value=b'', acl=None, ephemeral=False,
-               sequence=False, makepath=False, include_data=False):
+    def create(self, path, *args, **kwargs):
         parent = super(SimClient, self)
 
         def apply():
-            return parent.create(
-                path, value, acl=acl, ephemeral=ephemeral, sequence=sequence,
-                makepath=makepath, include_data=include_data)
+            return parent.create(path, *args, **kwargs)
 
         try:
             res = self._write('create', path, apply)
@@ -238,19 +267,24 @@ class SimClient(fakezk.Client):
         self._observe('create', res, 'ok')
         return res
 
-    def set(self, path, value, version=-1):
+    def set(self, path, *args, **kwargs):
         parent = super(SimClient, self)
         return self._write('set', path,
-                           lambda: parent.set(path, value, version))
+                           lambda: parent.set(path, *args, **kwargs))
 
-    def delete(self, path, version=-1, recursive=False):
+    def set_acls(self, path, *args, **kwargs):
+        parent = super(SimClient, self)
+        return self._write('set_acls', path,
+                           lambda: parent.set_acls(path, *args, **kwargs))
+
+    def delete(self, path, *args, **kwargs):
         parent = super(SimClient, self)
         return self._write('delete', path,
-                           lambda: parent.delete(path, version, recursive))
+                           lambda: parent.delete(path, *args, **kwargs))
 
-    def get(self, path, watch=None):
+    def get(self, path, *args, **kwargs):
         try:
-            data, stat = super(SimClient, self).get(path, watch)
+            data, stat = super(SimClient, self).get(path, *args, **kwargs)
         except kazoo.exceptions.NoNodeError:
             self._observe('get', path, 'nonode')
             raise
@@ -262,7 +296,8 @@ class SimClient(fakezk.Client):
             self._observe('get', path, 'persistent')
         return data, stat
 
-    def DataWatch(self, path, func=None):  # pylint: disable=invalid-name
+    def DataWatch(self, path, func=None, *_args, **_kwargs):
+        # pylint: disable=invalid-name,keyword-arg-before-vararg
         return _AtomicDataWatch(self, fakezk._norm(path), func)
 
 
@@ -279,7 +314,7 @@ class SimPresenceService(presence_service.PresenceResourceService):
     def zkclient(self):
         return self._sim_zk
 
-    def retry_request(self, rsrc_id):
+    def retry_request(self, rsrc_id, *_args, **_kwargs):
         # LinuxBaseResourceServiceImpl.retry_request: drop the reply, touch
         # the request link (ENOENT ignored) -> a "modified" event later on.
         self._sim_host.retry(self, rsrc_id)
@@ -303,6 +338,7 @@ class Callback(object):
         self.glet = None
         self.sid = host.client.sid
         self.sleeping = False  # inside KazooRetry's sleep
+        self.crashed = False   # the code under test called utils.sys_exit
         self.prev = {}         # path -> (claimant, rid in regs) before us
         self.fault_path = None
         self.faulted = False   # a ConnectionLoss was injected into it
@@ -381,6 +417,7 @@ class World(object):
         self.serial = 0
         self.audit_pos = len(self.tree.audit)
         self.flags = set()
+        self.watches_last = False   # drain policy, see run_schedule
         self.presence_paths = set()
         self.service_sids = {}  # sid -> host
         for host in self.hosts:
@@ -562,6 +599,14 @@ class World(object):
         self._replay(host, order)
         self.stats_count('op_restart')
 
+    def process_exit(self, host):
+        """The service process of `host` called os._exit (see ProcessExit)."""
+        self._kill_current(host)
+        host.new_service()
+        self._purge_pending()
+        self._replay(host, 0)
+        self.stats_count('process_exits')
+
     def op_kill(self, hostidx):
         """Admin blackout: presence.kill_node(<host>) from another session."""
         host = self.hosts[hostidx % len(self.hosts)]
@@ -605,13 +650,26 @@ class World(object):
             keep.append((callback, event))
         self.tree.pending = keep
 
+    def _deliver(self, index):
+        """Deliver one queued watch event (a schedule point of its own: it
+        may come long after the change that caused it)."""
+        _callback, event = self.tree.pending[index]
+        node = self.tree.nodes.get(event.path)
+        if event.type == 'DELETED' and node is not None:
+            # the node was deleted AND registered again before the watcher
+            # hears about the deletion
+            self.stats_count('watch_deliveries_stale')
+            self.flags.add('stale-watch')
+        self.stats_count('watch_deliveries')
+        self.tree.deliver(index)
+        self.check_audit(None)
+
     def op_watch(self, num):
         self._purge_pending()
         if not self.tree.pending:
             self.stats_count('idle_watch')
             return
-        self.tree.deliver(num % len(self.tree.pending))
-        self.check_audit(None)
+        self._deliver(num % len(self.tree.pending))
         self.stats_count('op_watch')
 
     # -- scheduling ---------------------------------------------------------
@@ -659,6 +717,8 @@ class World(object):
                     cur.result = body()
                 except (HarnessError, Violation):
                     raise
+                except ProcessExit:
+                    cur.crashed = True
                 except Exception as err:  # pylint: disable=broad-except
                     cur.result = {'_error': {'why': '%s: %s' % (
                         type(err).__name__, err)}}
@@ -687,7 +747,10 @@ class World(object):
         if cur.glet.dead and not cur.done:
             raise HarnessError('callback greenlet died: %r' % (cur.rid,))
         self.check_audit(cur)
-        if cur.done:
+        if cur.crashed:
+            host.current = None
+            self.process_exit(host)
+        elif cur.done:
             host.current = None
             self._finished(cur)
         self._note_overlap()
@@ -884,9 +947,8 @@ class World(object):
         while True:
             self._purge_pending()
             progressed = False
-            while self.tree.pending:
-                self.tree.deliver(0)
-                self.check_audit(None)
+            while self.tree.pending and not self.watches_last:
+                self._deliver(0)
                 self._purge_pending()
                 progressed = True
             # a callback inside KazooRetry's sleep (>= 0.1 s) lets everybody
@@ -904,6 +966,11 @@ class World(object):
                         progressed = True
                         steps += 1
                         break
+            if not progressed and self.tree.pending:
+                # watches_last: events are delivered one at a time, only
+                # when no host can do anything else
+                self._deliver(0)
+                progressed = True
             if not progressed:
                 return
             if steps > limit:
@@ -1015,6 +1082,9 @@ def run_schedule(case, stats):
     """Interpret one kind='sched' case. Returns the set of class flags."""
     world = World(case['hosts'], stats,
                   host_names(case, stats, case['hosts']))
+    # two deterministic drain policies: watch events first, or as late as
+    # possible (after every host has run dry)
+    world.watches_last = bool(len(case['ops']) % 2)
     try:
         for op in case['ops']:
             name = op[0]
